@@ -416,6 +416,35 @@ def clause_wouldblock_source(ctx, P, cg):
         raise AnalysisBroken("reader functions on top of %s: %d" % (fb.srcname, n))
 
 
+def clause_no_escape(ctx, P, cg):
+    """a read callback gets a pointer into the connection's read buffer that is valid only until it returns (the buffer is
+    compacted and refilled afterwards): the pointer is not stored into an object that outlives the call - bytes are copied"""
+    key = ("struct.buffered_socket", P.field_index("struct.buffered_socket", "read_callback"))
+    cbs = sorted(cg.field_funcs.get(key, ()))
+    if len(cbs) < 8:
+        raise AnalysisBroken("read callbacks discovered: %d" % len(cbs))
+    for name in cbs:
+        f = P.functions[name]
+        if f.nparams < 2:
+            continue
+        esc = []
+        for i in f.all_insts():
+            if i.op != "store":
+                continue
+            dt = P.term(f, i.a[1])
+            if dt[0] != "field":
+                continue
+            try:
+                lv, _ = Q.leaves(P, f, i.a[0], through_loads=False)
+            except AnalysisBroken:
+                continue
+            if ("param", 1, f.params[1]["name"]) in lv:
+                esc.append((i, dt))
+        ctx.ob("C09.3 R-OWN", f, "buffer-pointer-does-not-escape", not esc,
+               "%s keeps a pointer into the read buffer in %s: the buffer is compacted / refilled before the next callback, so what "
+               "the pointer refers to depends on how the stream was segmented" % (f.srcname, ", ".join(fmt_term(d) for _, d in esc[:2])))
+
+
 def run(ctx):
     for cfg in ctx.configs():
         P, cg = cfg.P, cfg.cg
@@ -424,3 +453,4 @@ def run(ctx):
         clause3_state(ctx, P)
         clause4_cursor(ctx, P)
         clause_wouldblock_source(ctx, P, cg)
+        clause_no_escape(ctx, P, cg)
